@@ -86,7 +86,7 @@ func runStress(t *testing.T, thorough bool) []stressResult {
 		iters = 3000
 	}
 	var out []stressResult
-	watchdog := func(name string, f func() (int, int, string)) {
+	watchdogFor := func(limit time.Duration, name string, f func() (int, int, string)) {
 		done := make(chan stressResult, 1)
 		go func() {
 			e, b, d := f()
@@ -95,10 +95,11 @@ func runStress(t *testing.T, thorough bool) []stressResult {
 		select {
 		case r := <-done:
 			out = append(out, r)
-		case <-time.After(120 * time.Second):
-			out = append(out, stressResult{name, 0, 1, "watchdog: scenario did not finish within 120s (deadlock?)"})
+		case <-time.After(limit):
+			out = append(out, stressResult{name, 0, 1, fmt.Sprintf("watchdog: scenario did not finish within %v (deadlock?)", limit)})
 		}
 	}
+	watchdog := func(name string, f func() (int, int, string)) { watchdogFor(120*time.Second, name, f) }
 	errA := errors.New("A")
 	// 1. one shared stack of all policies except hedge, sync and async, plus standalone calls
 	watchdog("shared-stack", func() (int, int, string) {
@@ -321,6 +322,51 @@ func runStress(t *testing.T, thorough bool) []stressResult {
 		wg.Wait()
 		time.Sleep(5 * time.Millisecond) // attempts that were about to start have entered the function
 		late.Wait()
+		d, _ := detail.Load().(string)
+		return int(n.Load()), int(bad.Load()), d
+	})
+	// 7. the execution is cancelled -- by an enclosing Timeout's timer goroutine, or by the caller from another goroutine -- while
+	// the retry policy's own OnFailure listener runs: between the retry loop's look at the cancellation and RecordResult.  The
+	// execution must come back (with the cancellation's error or, when the timer lost the race, with the retry policy's).
+	watchdogFor(30*time.Second, "cancel-during-failure-listener", func() (int, int, string) {
+		var n, bad atomic.Int64
+		var detail atomic.Value
+		var wg sync.WaitGroup
+		for g := 0; g < 8; g++ {
+			g := g
+			wg.Add(1)
+			go func() {
+				defer wg.Done()
+				for i := 0; i < iters/10+5; i++ {
+					n.Add(1)
+					rp := retrypolicy.Builder[int]().WithMaxRetries(2).OnFailure(func(failsafe.ExecutionEvent[int]) { time.Sleep(400 * time.Microsecond) }).Build()
+					fn := func() (int, error) { return 0, errA }
+					var err error
+					switch g % 4 {
+					case 0:
+						_, err = failsafe.NewExecutor[int](timeout.With[int](150*time.Microsecond), rp).Get(fn)
+					case 1:
+						_, err = failsafe.NewExecutor[int](fallback.WithError[int](errA), timeout.With[int](150*time.Microsecond), rp).GetAsync(fn).Get()
+					case 2:
+						ctx, cancel := context.WithCancel(context.Background())
+						tm := time.AfterFunc(150*time.Microsecond, cancel)
+						_, err = failsafe.NewExecutor[int](rp).WithContext(ctx).Get(fn)
+						tm.Stop()
+						cancel()
+					default:
+						ar := failsafe.NewExecutor[int](retrypolicy.Builder[int]().WithMaxRetries(1).Build(), rp).GetAsync(fn)
+						tm := time.AfterFunc(150*time.Microsecond, ar.Cancel)
+						_, err = ar.Get()
+						tm.Stop()
+					}
+					if err == nil {
+						bad.Add(1)
+						detail.Store("an execution whose function always fails came back without an error")
+					}
+				}
+			}()
+		}
+		wg.Wait()
 		d, _ := detail.Load().(string)
 		return int(n.Load()), int(bad.Load()), d
 	})
